@@ -50,6 +50,8 @@ THEOREMS = [P + n for n in (
     'rescaleStep_estimate_of_proportional', 'rescaleWeights_mask', 'nanMeanEntry_const',
     'rescaleLoop_output_is_alignment', 'rescale_keeps_nan_pattern',
     'nanMeanFirst_common_mask', 'nanMeanFirstEntry_some_iff', 'nanRank_eq', 'normCosO_eq', 'normCorrO_eq',
+    'mem_colAt_iff', 'nanMeanFirst_getElem?', 'nanMeanFirst_differing_masks_entry',
+    'pool_normalised_differing_masks_entry', 'pool_normalisers_keep_mask', 'pool_differing_masks_entry',
     'pool_common_mask_plain', 'pool_common_mask',
     'poolShift_pooling', 'poolShift_inferenceUtil', 'poolShift_monotone_min', 'poolRdm_common_mask',
     'regress_common_mask', 'regress_rejects_differing', 'poolRows_length', 'fit_pipeline_common_mask',
@@ -70,7 +72,9 @@ RULE = ('cases come from one PRNG; kinds compare (n = 4..6 conditions, stacks of
         'parse (both input parsers, exact), mean (weights none / per RDM as array or descriptor / per '
         'entry as array or 2-D descriptor; entries missing in some or all RDMs; from_partials), rescale '
         '(three methods, proportional and non-proportional partial RDMs, thresholds 1e-8 and 1e-13), '
-        'pool (both pool_rdm copies, all methods, common / differing masks), regress (fit_regress and '
+        'pool (both pool_rdm copies, all methods, common masks / one deviating RDM / every RDM lacking other '
+        'pairs in equal or unequal number - own random masks or the real from_partials on different condition '
+        'subsets - with provenance-coded values 1000 r + 10 (pair+1) + (rdm+1)), regress (fit_regress and '
         'fit_regress_nn, four methods, sigma_k, ridge, pattern bootstrap or explicit masks, differing '
         'masks), subsample (exact), session (3-8 calls of mean / rescale / compare / pool / fit on shared '
         'RDMs objects, one shared 2-D float weight ndarray and 1-D weight ndarray (argument, list copy or '
@@ -107,7 +111,13 @@ BRANCHES = (['method:' + m for m in METHODS] + ['mask:' + k for k in MASKKINDS] 
              'kind:session', 'session:weights_reused_other_mask', 'session:weights_list_after_array',
              'session:weights_back_to_first_stack', 'session:rdm_weights_reused', 'session:sigma_reused',
              'session:rdms_reused', 'session:mixed_ops', 'session:mean_after_rescale', 'session:step_rejected']
-            + ['session:op:' + o for o in ('mean', 'rescale', 'compare', 'pool', 'fit')])
+            + ['session:op:' + o for o in ('mean', 'rescale', 'compare', 'pool', 'fit')]
+            # round 7: RDMs of one pooled stack lacking different pairs, in equal / unequal number
+            + ['pool:differing-masks-equal-count:' + c for c in ('inf', 'pool')]
+            + ['pool:differing-masks-equal-count:%s:%s' % (c, pm) for c in ('inf', 'pool')
+               for pm in ('euclid', 'cosine', 'corr', 'cosine_cov', 'corr_cov', 'rank')]
+            + ['pool:differing-masks-unequal-count', 'pool:differing-masks-unequal-count:inf',
+               'pool:differing-masks-unequal-count:pool', 'pool:differing-masks:from_partials'])
 ASSUMPTIONS = [
     'IEEE evaluation of either side is within the stated tolerance of the real value (small '
     'integer / quarter inputs, n <= 6, well-conditioned sigma_k and regression designs)',
@@ -526,6 +536,91 @@ def _pool_case(rng, variant, method, maskkind):
             'maskkind': maskkind, 'zero_row': zero}
 
 
+def _prov_rows(rng, k, m, plain):
+    """provenance-coded values: entry k of RDM i is 1000*r + 10*(k+1) + (i+1) (r = 0 when `plain`, else a
+    random digit): all values of a stack are distinct and the last three digits of a value name the pair
+    and the RDM it belongs to, so that an entry-shifted pooled value is recognisable"""
+    return [[1000 * (0 if plain else rng.randint(0, 9)) + 10 * (j + 1) + (i + 1) for j in range(m)]
+            for i in range(k)]
+
+
+def _pool_diff_case(rng, variant, method, equal, source):
+    """(round 7) RDMs of ONE stack lack different pairs -- in equal number (`equal`) or not; `source`:
+    'masks' (an own random mask per RDM) or 'partials' (from_partials of partial RDMs over different
+    condition subsets, equally large iff `equal`); at least 3 pairs are present in every RDM"""
+    for _ in range(500):
+        n = rng.randint(4, 6)
+        m = n * (n - 1) // 2
+        k = rng.randint(2, 4)
+        parts = None
+        if source == 'partials':
+            k = rng.randint(2, 3)
+            n = rng.randint(5, 6)
+            m = n * (n - 1) // 2
+            if equal:
+                kk = rng.randint(n - 2, n - 1)
+                sizes = [kk] * k
+            else:
+                sizes = [rng.randint(3, n) for _ in range(k)]
+            subsets = [sorted(rng.sample(range(n), sz)) for sz in sizes]
+            if rng.random() < 0.5:
+                subsets = [rng.sample(sub, len(sub)) for sub in subsets]
+            parts = [{'pidx': sub, 'vec': [0] * (len(sub) * (len(sub) - 1) // 2)} for sub in subsets]
+            masks = [[v is not None for v in r] for r in _expand_parts(n, parts, False)]
+        else:
+            if equal:
+                drop = rng.randint(1, m - 4)
+                masks = []
+                for _i in range(k):
+                    dset = set(rng.sample(range(m), drop))
+                    masks.append([j not in dset for j in range(m)])
+            else:
+                masks = [_mask(rng, m, 4) if rng.random() < 0.85 else [True] * m for _ in range(k)]
+        counts = [sum(mk) for mk in masks]
+        if all(mk == masks[0] for mk in masks) or (len(set(counts)) == 1) != equal:
+            continue
+        if sum(1 for j in range(m) if all(mk[j] for mk in masks)) < 3 or min(counts) < 4:
+            continue
+        style = rng.choice(['prov', 'prov', 'provr', 'provr', 'distinct', 'quarters'])
+        if style.startswith('prov'):
+            rows = _prov_rows(rng, k, m, style == 'prov')
+        else:
+            rows = [_vector(rng, m, style) for _ in range(k)]
+        st = [_apply(mk, r) for mk, r in zip(masks, rows)]
+        if not _nonconst(st):
+            continue
+        if parts is not None:
+            # the partial RDMs' own vectors: the values of the expanded stack, read back pair by pair
+            for p_, row in zip(parts, st):
+                pi = p_['pidx']
+                vec = []
+                for a in range(len(pi)):
+                    for b in range(a + 1, len(pi)):
+                        i_, j_ = min(pi[a], pi[b]), max(pi[a], pi[b])
+                        vec.append(row[i_ * n - i_ * (i_ + 1) // 2 + (j_ - i_ - 1)])
+                p_['vec'] = vec
+            if _expand_parts(n, parts, False) != st:
+                raise AssertionError('pool partials: expansion differs from the stack')
+        sig = None
+        if variant == 'pool' and method.endswith('_cov'):
+            sig = _sigma(rng, n, rng.choice(['none', 'vec', 'mat']))
+        case = {'kind': 'pool', 'variant': variant, 'method': method, 'n': n, 'sigma': sig, 'stack': st,
+                'maskkind': 'differing_equal' if equal else 'differing_unequal', 'zero_row': None}
+        if parts is not None:
+            case['parts'] = parts
+        return case
+    raise RuntimeError('no differing-mask stack found')
+
+
+def _pool_diff_cases(rng, rounds):
+    for r in range(rounds):
+        for variant in ('inf', 'pool'):
+            for method in POOL_METHODS[variant]:
+                for equal in (True, False):
+                    yield _pool_diff_case(rng, variant, method, equal,
+                                          'partials' if rng.random() < 0.35 else 'masks')
+
+
 def _well_conditioned(A, mask):
     a = np.array([[float(unrat(v)) for v, b in zip(r, mask) if b] for r in A])
     a2 = a - a.mean(1, keepdims=True)
@@ -752,6 +847,8 @@ def generate(rng, tier):
         for variant in ('inf', 'pool'):
             for method in POOL_METHODS[variant]:
                 yield _pool_case(rng, variant, method, rng.choice(['none', 'common', 'common', 'differing']))
+    # round 7: RDMs of one stack lacking different pairs in equal / unequal number, every method, both copies
+    yield from _pool_diff_cases(rng, 3 if quick else 20)
     for _ in range(15 if quick else 150):
         for method in FIT_METHODS:
             for nn in (False, True):
@@ -776,6 +873,8 @@ def search(rng, tier):
             yield _rescale_case(rng, ('evidence', 'setsize', 'simple')[(k // 3) % 3], k % 2 == 0, '1e-8')
             v = ('inf', 'pool')[(k // 3) % 2]
             yield _pool_case(rng, v, rng.choice(POOL_METHODS[v]), rng.choice(['common', 'none']))
+            yield _pool_diff_case(rng, v, rng.choice(POOL_METHODS[v]), k % 2 == 0,
+                                  'partials' if k % 4 == 0 else 'masks')
             yield _regress_case(rng, rng.choice(FIT_METHODS), k % 2 == 1,
                                 rng.choice(['bootstrap', 'common', 'reject']))
             yield _subsample_case(rng)
@@ -939,7 +1038,10 @@ def _impl_pool(case):
     from rsatoolbox.util import inference_util, pooling
 
     def go():
-        r = RDMs(_arr(case['stack']))
+        if 'parts' in case:
+            r = _rdms_from_parts(case['n'], case['parts'])
+        else:
+            r = RDMs(_arr(case['stack']))
         if case['variant'] == 'inf':
             p = inference_util.pool_rdm(r, method=case['method'])
         else:
@@ -1451,6 +1553,17 @@ def features(case, impl):
         br += ['pool:' + case['variant']]
         if case['maskkind'] in ('common', 'differing'):
             br.append('pool:' + case['maskkind'])
+        pmasks = [[v is not None for v in r] for r in case['stack']]
+        if any(mk != pmasks[0] for mk in pmasks):
+            if len({sum(mk) for mk in pmasks}) == 1:
+                br.append('pool:differing-masks-equal-count:' + case['variant'])
+                br.append('pool:differing-masks-equal-count:' + case['variant'] + ':' + _pool_wire(case['variant'], case['method'])[0])
+            else:
+                br.append('pool:differing-masks-unequal-count')
+                br.append('pool:differing-masks-unequal-count:' + case['variant'])
+            if 'parts' in case:
+                br.append('pool:differing-masks:from_partials')
+            f['pool_masks'] = 'equal-count' if len({sum(mk) for mk in pmasks}) == 1 else 'unequal-count'
         if case['sigma'] is not None:
             br.append('pool:cov_sigma')
             if 'vec' in case['sigma']:
